@@ -114,6 +114,18 @@ class Iv:
             if op in ("Add", "AddUnchecked"):
                 return self._fit("Add", t, (a[0] + b[0], a[1] + b[1]), ty)
             if op in ("Sub", "SubUnchecked"):
+                # centred remainder  x - (((x + c) >> k) << k)  =  ((x + c) mod 2^k) - c   (exact, relational)
+                y = t[3]
+                if isinstance(y, tuple) and y[0] == "bin" and y[1] in ("Shl", "ShlUnchecked") and ssa.is_c(y[3]):
+                    z = y[2]
+                    if isinstance(z, tuple) and z[0] == "bin" and z[1] in ("Shr", "ShrUnchecked") and ssa.is_c(z[3]) and z[3][1] == y[3][1]:
+                        k_ = y[3][1]
+                        w = z[2]
+                        c_ = 0
+                        if isinstance(w, tuple) and w[0] == "bin" and w[1] in ("Add", "AddUnchecked") and ssa.is_c(w[3]) and w[2] == t[2]:
+                            c_, w = w[3][1], w[2]
+                        if w == t[2] and 0 <= c_ < (1 << k_) and fits((b[0], b[1]), ty):
+                            return (-c_, (1 << k_) - 1 - c_)
                 return self._fit("Sub", t, (a[0] - b[1], a[1] - b[0]), ty)
             if op in ("Mul", "MulUnchecked"):
                 c = [a[0] * b[0], a[0] * b[1], a[1] * b[0], a[1] * b[1]]
@@ -244,6 +256,16 @@ def assert_failures(res, ev):
         op = kind.split(":")[1]
         if not (isinstance(cnd, tuple) and cnd and cnd[0] == "ovf"):
             if ssa.is_c(cnd) and bool(cnd[1]) == bool(expected):
+                continue
+            if op == "Neg" and isinstance(cnd, tuple) and cnd[0] == "bin" and cnd[1] == "Eq" and ssa.is_c(cnd[3]) and not expected:
+                # -x overflows only for x == MIN
+                try:
+                    x = ev.iv(cnd[2])
+                except Infeasible:
+                    continue
+                if x[0] > cnd[3][1]:
+                    continue
+                bad.append((bb, kind, x, cnd[3][2]))
                 continue
             if op in ("Shr", "Shl"):
                 # shift amount in range: the operand is the amount
